@@ -76,7 +76,7 @@ Definition proj_mismatches (cs : list (N * env * nat * list proj_item)) : list N
 
 (* ---- tier B: generated server and client vs server_respond / client_decode ---- *)
 
-Inductive cobs := OOk (x : val) | OErr | OPanic | ONoResp.
+Inductive cobs := OOk (x : val) | OErr | OPanic | ONil | ONoResp.
 
 Record exch := mkExch {
   x_coll : bool; x_type : name; x_fixed : option name; x_chosen : name; x_val : val;
@@ -98,10 +98,11 @@ Definition exch_ok (e : env) (x : exch) : bool :=
   | WFault, None => match x_client x with OErr => true | _ => false end
   | WResp h carried b, Some (h', b') =>
     (x_tampered x || oname_eqb h h') && vflds_eqb carried (x_carried x) && val_eqb b b' &&
-    match client_decode e (x_type x) (x_fixed x) h' (whole e (x_type x) (x_carried x) b'), x_client x with
+    match client_decode_resp e (x_type x) (x_fixed x) h' (x_mapped x) (whole e (x_type x) (x_carried x) b'), x_client x with
     | COk y, OOk y' => val_eqb y y'
     | CErr, OErr => true
     | CPanic, OPanic => true
+    | CNil, ONil => true
     | _, _ => false
     end
   | _, _ => false
